@@ -9,6 +9,8 @@ import importlib as _il, os as _os, sys as _sys
 _sys.path.insert(0, _os.path.dirname(_os.path.abspath(__file__)))
 import vector as _vector_spec
 _il.reload(_vector_spec)
+import lexenv as _lexenv_spec
+_il.reload(_lexenv_spec)
 
 TYPE_EXT = {
     'Heap': {'decl': _opaque('Heap', 'crate::vm::heap::Heap')},
@@ -39,12 +41,7 @@ TYPE_EXT = {
     'VCellO': {'decl': '''#[verifier::external_type_specification] #[verifier::external_body] pub struct ExVCell(crate::vm::vcell::VCell);
 pub assume_specification [<crate::vm::vcell::VCell as Clone>::clone] (a: &crate::vm::vcell::VCell) -> (r: crate::vm::vcell::VCell) ensures r == *a;''', 'replaces': ['VCell']},
     'VectorView': {'needs': ['Vector', 'VCell'], 'decl': _vector_spec.assumed_decl('vector_view')},
-    'EnvView': {'needs': ['LexicalEnvironment', 'VCell'], 'decl': '''
-pub uninterp spec fn env_view(e: crate::vm::environment::LexicalEnvironment) -> Seq<crate::vm::vcell::VCell>;
-pub assume_specification [crate::vm::environment::LexicalEnvironment::slot_len] (e: &crate::vm::environment::LexicalEnvironment) -> (r: usize) ensures r == env_view(*e).len();
-pub assume_specification [crate::vm::environment::LexicalEnvironment::get] (e: &crate::vm::environment::LexicalEnvironment, i: usize) -> (r: crate::vm::vcell::VCell)
-    requires i < env_view(*e).len() ensures r == env_view(*e)[i as int];
-'''},
+    'EnvView': {'needs': ['LexicalEnvironment', 'VCell'], 'decl': _lexenv_spec.assumed_decl('env_view')},
     'RcAsRef': {'decl': 'pub assume_specification<T: ?Sized, A: core::alloc::Allocator> [<std::rc::Rc<T, A> as AsRef<T>>::as_ref] (x: &std::rc::Rc<T, A>) -> (r: &T) ensures r == &**x;'},
     'RcDeref': {'decl': 'pub assume_specification<T: ?Sized, A: core::alloc::Allocator> [<std::rc::Rc<T, A> as core::ops::Deref>::deref] (x: &std::rc::Rc<T, A>) -> (r: &T) ensures r == &**x;'},
     'RefCell': {'decl': '#[verifier::external_type_specification] #[verifier::external_body] #[verifier::reject_recursive_types(T)] pub struct ExRefCell<T: ?Sized>(core::cell::RefCell<T>);'},
@@ -63,6 +60,7 @@ GROUPS = {
     'stack': ['vcell', 'stack'],
     'globenv': ['vcell', 'globenv'],
     'vector': ['vector'],
+    'lexenv': ['lexenv'],
     'gcroots': ['vcell', 'stack', 'globenv', 'heap_model', 'vm_struct', 'continuation', 'run_gc'],
     'cont': ['vcell', 'stack', 'vm_struct', 'continuation', 'builtin_mod', 'builtin_procedure'],
     'builtins': ['vcell', 'stack', 'vm_struct', 'builtin_mod', 'builtin_vector', 'builtin_list'],
@@ -81,7 +79,7 @@ PROPS = {
                 'results built inside closures passed to Option::map (float arms of quotient / %) are opaque to Verus',
                 'the variadic procedures +, * and - are verified ((- x y ...) is x minus the sum of all the others; a non-number FIRST argument of - is silently skipped by the code -- (- (quote a) 1) answers 1 -- which no claimed property speaks about): for + and * an exact answer is exactly the sum / product of ALL arguments, each of which then was exact (args_sum / args_prod, step lemmas); abs / floor / ceiling / truncate / numerator / denominator hand their argument to the Number operation of the same name and return its answer; min / max / the comparison procedures are not under contract (provided trait methods `<`, `>` cannot be specified in this Verus; num_comp takes a closure)', 'divide / quotient / remainder also carry value postconditions over their two (or one) arguments in the right order; the procedures divide / quotient / remainder / expt (vm/builtin/number.rs) are verified to establish the preconditions of the Number operations they call (non-zero divisor, integer operands); pop_number / pop_integer are verified; expt also carries a value postcondition (x^e for the integer e that was passed); Number::numerator / denominator are verified for exact arguments (a stored rational is in lowest terms); Number::is_zero / to_u32 carry assumed contracts (is_zero is checked by Kani harnesses under C09); the modulo procedure is under contract for a first argument that is not a float (Number::modulo needs that: closure results in the float arms are opaque)',
             ]},
-    'C03': {'groups': ['heap', 'gcroots'], 'search': 'search_heap',
+    'C03': {'groups': ['heap', 'gcroots', 'lexenv'], 'search': 'search_heap',
             'kani': [
                 {'harness': 'gc_state_from_u8', 'file': 'src/vm/gc.rs', 'kind': 'complete', 'what': 'State::from(u8) is the inverse of State::bits on 0..=2 (all bytes)'},
                 {'harness': 'gc_map_get', 'file': 'src/vm/gc.rs', 'kind': 'complete', 'what': 'Map::get returns the 2-bit field of the addressed cell for every byte content and index (map of 3 bytes), None past capacity: discharges the contract Verus assumes for Map::get'},
@@ -90,7 +88,7 @@ PROPS = {
             'assumptions': [
                 'scope: the collector mechanisms of heap.rs / gc.rs (Map, alloc, free, put, sweep, mark, mark_vcell); root enumeration in Vm::run_gc and the claim that run_one never dereferences a free cell are NOT decided',
                 'termination of mark / mark_vcell is not proved (exec_allows_no_decreases_clause)',
-                'Heap::grow, Map::get/new/resize: contracts assumed on the Verus side (Kani harnesses listed cover Map::get completely, new/resize bounded); mark_continuation is verified: it walks the saved stack through the opaque iterator of Stack::iter (contract proved in unit stack, same group), then marks the saved ip and ep; cont_kid is defined over the views of unit continuation (same group), whose getters are verified',
+                'Heap::grow (f64 growth policy) and Map::get (Verus ICE on a shift inside a closure; covered completely by the Kani harness gc_map_get): contracts assumed on the Verus side; Map::new / resize are verified (their assert_eq!(size % 4, 0) is pre-rewritten into a branch Verus proves dead; the bounded Kani harness still runs as a cross-check); LexicalEnvironment::slot_len / get: the text the collector assumes over env_view is proved on the real bodies in unit lexenv (RefCell::borrow / Ref::deref assumed); mark_continuation is verified: it walks the saved stack through the opaque iterator of Stack::iter (contract proved in unit stack, same group), then marks the saved ip and ep; cont_kid is defined over the views of unit continuation (same group), whose getters are verified',
                 'payload views vector_view/env_view and the child relations cont_kid/lambda_kid/vkid are uninterpreted; axiom_vkids defines vkid by cases (trusted)',
                 'interior-mutable payloads (Vector, LexicalEnvironment) are treated as values: nothing mutates them during a collection', 'root enumeration (group gcroots): Vm::run_gc is verified to have marked, at the point where it calls sweep, the symbol of every global binding, the object of every global slot, whatever the live stack slots 0..=sp refer to, the accumulator, the code object of %ip and %ep, with the marked set closed under children (mark_ok since entry), and to leave stack, registers, accumulator and globals alone.  Its three `.for_each(|it| ..)` statements (closures capturing &mut self.heap, which Verus refuses) are desugared mechanically into the for loops they are defined to be, `.filter_map(|it| F).for_each(..)` into `for it in .. { if let Some(it) = F { .. } }` (pre-rewrite for_each_loops); the two f64 utilisation comparisons become an unspecified boolean of their operands (pre-rewrite f64_gates: Verus has no usize -> f64 cast), so run_gc is verified for both outcomes of each gate.  Stack::iter_to_sp and GlobalEnvironment::iter_bindings / iter_slots are verified in the same group (exactly the live slots; every bound symbol; every slot).  Heap is OPAQUE in this group: Heap::mark / mark_vcell are declared with the very clause texts unit heap proves on the real bodies (specs/heap_model.py imports specs/heap_mark.py), over uninterpreted views.  Assumed: Heap::sweep is callable at that point -- unit heap verifies sweep under the full representation invariant Heap::wf, which marking preserves only if no FREE cell gets marked, i.e. if no free cell is reachable (the mutator-side half of C03: a whole-history invariant that no contract here decides); and that the cells reachable from the roots are the ones the child relations ckid / vkid name (axiom_vkids)',
                 'no Symbol cell is written except through put/maybe_put (get_at_index_mut is outside the contract)',
@@ -122,7 +120,7 @@ PROPS = {
                 'eval (builtin/procedure.rs): the thunk built for the datum is compiled with the flag set -- if the macro-expanded datum is an application, the code object eval returns (to be entered by the re-dispatched call) ends in TCALL; Ret; pop_argc / Vm::pop / Heap::get_as_cell / Stack::push carry assumed contracts over an opaque stack (popped_value / stack_popped: what Vm::pop answers and what is left, as uninterpreted functions of heap and stack); every compile function is also proved to leave the machine registers alone (eval moves ip back afterwards)',
                 'run-time half, group runone: the TCALL arm of the real run_one is proved to rebuild the frame in place (frame_replaced): after a tail call to a closure or lambda the stack pointer is (first argument slot of the old frame) + argc + 2 -- independent of the previous stack depth --, the saved %ep / %ip / %bp of the caller are the ones of the replaced frame, the new arguments sit in order above the frame base, nothing below the frame changes, the heap is untouched; both the equal-argc in-place copy and the different-argc rebuild satisfy the same postcondition',
                 'the run_one contract is scoped by precondition to states whose next opcode is CALL, TCALL, ENTER, RET or VARARG (every other arm is then unreachable) and whose frame layout satisfies tcall_frame (bp + 5 + argc <= sp, frame_argc <= bp, stack shorter than 2^61 slots): run_count, the caller, is verified in group run against an assumed run_one and does not establish this precondition -- it is an assumption about the states compiled code reaches; read_opcode (moves %ip only), Heap::get, VCell::as_bp (Kani-checked) carry assumed contracts; Stack::get / get_mut / get_offset / get_offset_mut / get_sp / get_sp_mut / push are verified (unit stack); usize is 64 bits (global size_of usize == 8)',
-                'the same run_one contract covers CALL (pushes exactly %ep and the return address), ENTER (pushes %bp, new %bp addresses the last argument), RET (drops the whole frame, restores %ep/%ip/%bp from it, writes nothing) and VARARG (optional arguments replaced by one slot: req + 1 arguments whatever was passed; needs `a variadic code object has at least one formal`); VCell::as_argc / as_bp / as_ep / as_ip: assumed on the Verus side, checked on the real code by the complete Kani harness vcell_accessors; Vm::lambda assumed to answer the code object determined by heap and %ip.0 (and assumed total: it panics if %ip.0 does not designate a code object, which compiled code never produces); Vm::pop / Heap::get assumed total likewise (a dangling pointer makes Heap::get_at_index panic)', 'apply (builtin/procedure.rs, group cont): hands control back to the dispatching CALL / TCALL (%ip.1 - 1) with the procedure as its result and exactly the spread arguments on the stack -- the k leading arguments moved down over the procedure slot, then pointers to the cars of the m list cells (walked through the heap), then ArgumentCount(k + m); nothing below is touched, no slot is left behind; requires the argument count on the stack to be smaller than the stack pointer (true after CALL / TCALL); Vm::pop assumed', 'call/cc handing control back is decided under C05 (same group)', 'the stack never has more than isize::MAX / 2 slots (axiom_stack_len: Vec allocation limit, VCell larger than one byte) -- used for i64 index arithmetic and for `can always double`', 'NOT decided at run time: the heap objects VARARG / ENTER build; the cond / case / and / or / when / unless / let-family forms are prelude.scm macros over `if` and `lambda`, their expansion is not under contract',
+                'the same run_one contract covers CALL (pushes exactly %ep and the return address), ENTER (pushes %bp, new %bp addresses the last argument), RET (drops the whole frame, restores %ep/%ip/%bp from it, writes nothing) and VARARG (optional arguments replaced by one slot: req + 1 arguments whatever was passed; needs `a variadic code object has at least one formal`); VCell::as_argc / as_bp / as_ep / as_ip: assumed on the Verus side, checked on the real code by the complete Kani harness vcell_accessors; Vm::lambda assumed to answer the code object determined by heap and %ip.0 (and assumed total: it panics if %ip.0 does not designate a code object, which compiled code never produces); Vm::pop is verified in this group (the popped cell read through the heap, one slot popped, nothing else touched) against Heap::get_at_index, which like Heap::get is assumed to answer what the pointer designates and assumed total (a dangling pointer makes it panic)', 'apply (builtin/procedure.rs, group cont): hands control back to the dispatching CALL / TCALL (%ip.1 - 1) with the procedure as its result and exactly the spread arguments on the stack -- the k leading arguments moved down over the procedure slot, then pointers to the cars of the m list cells (walked through the heap), then ArgumentCount(k + m); nothing below is touched, no slot is left behind; requires the argument count on the stack to be smaller than the stack pointer (true after CALL / TCALL); Vm::pop assumed', 'call/cc handing control back is decided under C05 (same group)', 'the stack never has more than isize::MAX / 2 slots (axiom_stack_len: Vec allocation limit, VCell larger than one byte) -- used for i64 index arithmetic and for `can always double`', 'NOT decided at run time: the heap objects VARARG / ENTER build; the cond / case / and / or / when / unless / let-family forms are prelude.scm macros over `if` and `lambda`, their expansion is not under contract',
                 'the contract speaks about branches that are themselves procedure calls (rt_app) or `if` forms; deeper nesting follows by the same contracts applied to the inner form, but the induction over the datum is not stated as a lemma',
                 'Cell accessor contracts (car, cdr, is_pair, is_nil, is_list, collect_vec, clone) assumed from their one-line bodies in cell.rs; Lambda::emit and Lambda::argc are verified (unit lambda; a Vec holds at most isize::MAX elements: axiom_vec_len); Lambda::binding_location assumed to answer an argument index below the argument count; core identity From<T> for T assumed (axiom_into_self); str extensionality (axiom_str_ext); a datum has fewer than 2^64 pairs (axiom_spine_fits, used for the argument counter)',
                 'executable rewrite inside compile_if: the slice-pattern match is desugared to length tests and indexing (Verus has no slice patterns)',
@@ -139,7 +137,7 @@ PROPS = {
                 {'harness': 'vcell_accessors', 'file': 'src/vm/vcell.rs', 'kind': 'complete', 'timeout': 600, 'what': 'VCell::as_ptr/as_argc/as_car/as_cdr/as_bp/as_ep/as_ip/is_pair answer Ok(payload) exactly on the matching variant (their contracts are assumed on the Verus side)'},
             ],
             'assumptions': [
-                'scope: the vector procedures vector, make-vector, vector-length, vector-ref, vector-set!, vector-fill!, vector->list, list->vector, vector-copy (start index), vector-copy! and the pair/list procedures cons, car, cdr, set-car!, set-cdr!, list-ref, list-tail, reverse and the list-copying helper clone_list that append uses (a fresh chain of allocated pairs with the very car fields of the argument, ending in a fresh () cell; nothing allocated before changes); append itself (Verus: for-loops do not support `continue`), equal?, and the library procedures written in Scheme (length, map, memq, assq, ...) are NOT under contract', 'vector->list / reverse build fresh lists: list_of / plist say every pair of the result is an allocated cell, the cars designate the very elements (a pointer is kept, another value sits in an allocated cell holding it), the order is right, the list ends in (), and heap_ext says no cell that was allocated before is changed; reverse requires that the cdr fields along its argument designate allocated cells (a reachable list never points into free cells: collector soundness, C03) and, like list->vector, does not terminate on a circular list',
+                'scope: the vector procedures vector, make-vector, vector-length, vector-ref, vector-set!, vector-fill!, vector->list, list->vector, vector-copy (start index), vector-copy! and the pair/list procedures cons, car, cdr, set-car!, set-cdr!, list-ref, list-tail, reverse and the list-copying helper clone_list that append uses (a fresh chain of allocated pairs with the very car fields of the argument, ending in a fresh () cell; nothing allocated before changes); append itself is under contract too (its `for _ in 0..(argc - 1)` loop with a `continue` is pre-rewritten into the equivalent while loop, which Verus accepts): no allocated cell changes, (append x) is x itself, (append () y) is y itself, and for any number of arguments that are () or proper lists the result is a path of allocated pairs with the car fields of the arguments in call order that ends in the last argument itself (shared, not copied); it requires what collector soundness gives for reachable data (arguments designate allocated cells, list spines point at allocated cells); equal? and the library procedures written in Scheme (length, map, memq, assq, ...) are NOT under contract', 'vector->list / reverse build fresh lists: list_of / plist say every pair of the result is an allocated cell, the cars designate the very elements (a pointer is kept, another value sits in an allocated cell holding it), the order is right, the list ends in (), and heap_ext says no cell that was allocated before is changed; reverse requires that the cdr fields along its argument designate allocated cells (a reachable list never points into free cells: collector soundness, C03) and, like list->vector, does not terminate on a circular list',
                 'in group builtins the heap is opaque: Heap::get / put / get_at_index_mut carry assumed contracts over the views heap_deref / heap_live (what a pointer designates, which cells are allocated).  The put and get_at_index_mut models are ONE text (specs/builtin.py: PUT_MODEL_TEMPLATE, GIM_MODEL_TEMPLATE) instantiated twice: over uninterpreted views where they are assumed, and over the concrete views (cells / state map) in unit heap, where Heap::put and Heap::get_at_index_mut are VERIFIED to satisfy them (group heap runs under this property for that).  Writing the proof down showed that the first assumed model was wrong for a symbol whose name is already interned (it claimed a fresh cell); the model was corrected.  Heap::get (Cow argument) stays assumed',
                 'stores into the interior-mutable Vector are tracked as events: vector_written(v, i, x) can only be established by Vector::put(i, x); "no other slot is written" (frame) is not expressible and not decided.  Vector::get is modelled against the contents at entry (vector_view is a function of the handle): exact for distinct allocations; when vector-copy! is given one vector as source and destination (Rc::ptr_eq, assumed to decide identity of the allocation: rc_same) each copy loop carries the obligation that the slot it reads is not among the slots it has already written, which is what makes the entry contents the right model (R7RS: as if the source were copied to a temporary first)',
                 'Vector::put carries the precondition index < length, so its silently-ignore branch is proved dead at every call site',
